@@ -842,10 +842,10 @@ def _m_forfam():
 
 def _m_fornest():
     return _spec("fornest", [
-        ("tv", [FOR("c", ["a", "b"], [FOR("k", ["1", "2"], [Q("y@c@@k@")])]), Q("s")]),
+        ("tv", [FOR("c", ["b", "a"], [FOR("k", ["2", "1"], [Q("y@c@@k@")])]), Q("s")]),
         ("par", [FOR("k", ["1", "2"], [Q("g@k@")])]),
         ("teq", [
-            FOR("c", ["a", "b"], [FOR("k", ["1", "2"], [
+            FOR("c", ["b", "a"], [FOR("k", ["2", "1"], [
                 E(V("y@c@@k@"), add(mul(P("g@k@"), V("y@c@@k@", -1)), V("s", 1))),
             ])]),
             E(V("s"), FORSUM(mul(N(0.5), V("s", -1)), "c", ["a", "b"], mul(P("g1"), V("y@c@2", -1)))),
@@ -922,7 +922,8 @@ def _m_meas():
         ("meq", [
             E(V("o1"), add(x, V("w1")), desc="First observation"),
             E(F("log", V("o2")), add(mul(P("h"), y), V("w2"), V("e2")), steady=(V("o2"), F("exp", mul(P("h"), y)))),
-            E(V("o3"), sub(mul(x, y), pw(V("w1"), N(2)))),
+            # a transition shock inside a measurement equation: no anticipated twin there
+            E(V("o3"), add(sub(mul(x, y), pw(V("w1"), N(2))), mul(N(0.25), V("e")))),
         ]),
     ])
 
